@@ -1,5 +1,6 @@
 import SecsModel.Model.SM
 import SecsModel.Gen.Misc
+import SecsModel.Gen.CtrlMethods
 /-!
 # Model.Gem.Ctrl — the GEM control state of a `GemEquipmentHandler`
 
@@ -8,9 +9,10 @@ Built on the engine model (`Model.SM`) with
   `Gen.CtrlSM.forwarders` (`_on_control_state_control/offline/online`),
 * hand-modelled from `gem/state_models_capability.py`: `_on_control_state_attempt_online` (the S1F1 probe; its outcome is an
   input), the `called` registrations that trigger the LOCAL/REMOTE collection events, `control_switch_*`, `_on_s01f15`,
-  `_on_s01f17`; from `gem/equipmenthandler.py`: `on_connection_closed`; from `gem/control_state_machine.py`: the
-  `_online_control_state = "LOCAL"/"REMOTE"` assignments after `switch_online_local/remote`;
-* `Gen.Misc.controlStateId` for SVID 1002.
+  `_on_s01f17`; from `gem/equipmenthandler.py`: `on_connection_closed`;
+* `Gen.Misc.controlStateId` for SVID 1002;
+* `Gen.CtrlMethods.methods`: the public methods of `ControlStateMachine` as statement lists in source order (`runMethod`), so that
+  *when* `switch_online_local/remote` update the remembered sub-state — after the transition was performed — is generated, not assumed.
 
 A step is one operator call or one host message handled to completion; its outputs are, in the order the code produces
 them, the collection events passed to `trigger_collection_events`, the acknowledge code of the reply, and the exception
@@ -107,6 +109,29 @@ def request (c : CState) (p : Option Probe) (name : String) : CState × List Out
   | .ok st => ({ c with cur := st.cur, flags := SM.flags ctrl st }, eventsOf st.log, true)
   | .fail e st => ({ c with cur := st.cur, flags := SM.flags ctrl st }, eventsOf st.log ++ [.raised e], false)
 
+/-- `self.<attr> = "<value>"` inside a `ControlStateMachine` method -/
+def assign (c : CState) (a v : String) : CState :=
+  if a == "_online_control_state" then { c with remote := v == "REMOTE" }
+  else if a == "_initial_control_state" then { c with initial := v }
+  else c
+
+/-- the statements of a generated method, in source order; a raise in `_perform_transition` ends the method there -/
+def runStmts (c : CState) (p : Option Probe) : List (String × String × String) → List Output → CState × List Output × Bool
+  | [], outs => (c, outs, true)
+  | st :: rest, outs =>
+    if st.1 == "perform" then
+      match request c p st.2.1 with
+      | (c', o, true) => runStmts c' p rest (outs ++ o)
+      | (c', o, false) => (c', outs ++ o, false)
+    else if st.1 == "assign" then runStmts (assign c st.2.1 st.2.2) p rest outs
+    else runStmts c p rest outs
+
+/-- `self._control_state.<method>()` (`Gen.CtrlMethods.methods`); a method the class does not have raises (AttributeError) -/
+def runMethod (c : CState) (p : Option Probe) (method : String) : CState × List Output × Bool :=
+  match Gen.CtrlMethods.methods.find? (fun r => r.1 == method) with
+  | some r => runStmts c p r.2 []
+  | none => (c, [.raised .unknown], false)
+
 /-- `self._control_state.current == ControlState.<member>` -/
 def isCur (c : CState) (member : String) : Bool :=
   match Gen.Misc.controlStates.find? (fun r => r.1 == member) with
@@ -117,51 +142,45 @@ def isOnline (c : CState) : Bool := isCur c "ONLINE" || isCur c "ONLINE_LOCAL" |
 
 def step (c : CState) (i : Input) : CState × List Output :=
   match i with
-  | .switchOnline p => match request c (some p) "switch_online" with | (c', outs, _) => (c', outs)
-  | .onlineBegin => match request c none "switch_online" with | (c', outs, _) => (c', outs)
+  | .switchOnline p => match runMethod c (some p) "switch_online" with | (c', outs, _) => (c', outs)
+  | .onlineBegin => match runMethod c none "switch_online" with | (c', outs, _) => (c', outs)
   | .probe p =>
     if isCur c "ATTEMPT_ONLINE" then
       match probeRequest (some p) with
-      | nm :: _ => match request c none nm with | (c', outs, _) => (c', outs)
+      | nm :: _ => match runMethod c none nm with | (c', outs, _) => (c', outs)
       | [] => (c, [])
     else (c, [])
   | .switchOffline =>
-    match request c none "switch_offline" with
+    match runMethod c none "switch_offline" with
     | (c', outs, true) => (c', outs ++ [.ceid ceEquipmentOffline])
     | (c', outs, false) => (c', outs)
-  | .switchLocal =>
-    match request c none "switch_online_local" with
-    | (c', outs, true) => ({ c' with remote := false }, outs)
-    | (c', outs, false) => (c', outs)
-  | .switchRemote =>
-    match request c none "switch_online_remote" with
-    | (c', outs, true) => ({ c' with remote := true }, outs)
-    | (c', outs, false) => (c', outs)
+  | .switchLocal => match runMethod c none "switch_online_local" with | (c', outs, _) => (c', outs)
+  | .switchRemote => match runMethod c none "switch_online_remote" with | (c', outs, _) => (c', outs)
   | .s1f15 =>
     if isOnline c then
-      match request c none "remote_offline" with
+      match runMethod c none "remote_offline" with
       | (c', outs, true) => (c', outs ++ [.ceid ceEquipmentOffline, .ack 0])
       | (c', outs, false) => (c', outs)
     else (c, [.ack 0])
   | .s1f17 =>
     if isCur c "HOST_OFFLINE" then
-      match request c none "remote_online" with
+      match runMethod c none "remote_online" with
       | (c', outs, true) => (c', outs ++ [.ack 0])
       | (c', outs, false) => (c', outs)
     else if isOnline c then (c, [.ack 2])
     else (c, [.ack 1])
   | .linkLost =>
-    match (if isOnline c then (match request c none "switch_offline" with | (c', outs, _) => (c', outs)) else (c, [])) with
+    match (if isOnline c then (match runMethod c none "switch_offline" with | (c', outs, _) => (c', outs)) else (c, [])) with
     | (c1, outs1) =>
       if isCur c1 "EQUIPMENT_OFFLINE" then
-        match request c1 (some .notCommunicating) "switch_online" with
+        match runMethod c1 (some .notCommunicating) "switch_online" with
         | (c2, outs2, _) => (c2, outs1 ++ outs2)
       else (c1, outs1)
 
 /-- the handler right after its constructor (`self._control_state.start()`; the communication state is still DISABLED) -/
 def init (initial : String) (remote : Bool) : CState × List Output :=
   let c0 : CState := { cur := (initOf CtrlSM).cur, flags := SM.flags ctrl (initOf CtrlSM), remote := remote, initial := initial }
-  match request c0 (some .notCommunicating) "start" with
+  match runMethod c0 (some .notCommunicating) "start" with
   | (c', outs, _) => (c', outs)
 
 def run (c : CState) : List Input → CState × List (List Output)
